@@ -115,6 +115,9 @@ theorem Good.verbose {s : St} {f : Found} {r : Res} (h : Good s f r) : r.st.verb
 theorem GoodP.verbose {s : St} {p : PRes} (h : GoodP s p) : p.st.verbose = s.verbose :=
   h.ctx.2.2.2.2.2
 
+/-- closes the goals where both runs return a literal result -/
+macro "sim_triv" : tactic => `(tactic| first | rfl | (simp; done) | (simp <;> rfl))
+
 /-- both runs branch on the same condition -/
 theorem sim_ite {c : Prop} [Decidable c] {a b a' b' : Res} (h1 : c → a = silence a') (h2 : ¬ c → b = silence b') :
     (if c then a else b) = silence (if c then a' else b') := by
@@ -123,6 +126,23 @@ theorem sim_ite {c : Prop} [Decidable c] {a b a' b' : Res} (h1 : c → a = silen
 theorem simP_ite {c : Prop} [Decidable c] {a b a' b' : PRes} (h1 : c → a = silenceP a') (h2 : ¬ c → b = silenceP b') :
     (if c then a else b) = silenceP (if c then a' else b') := by
   split <;> simp_all
+
+/-- the generic form -/
+theorem ite_sim {β : Type} (g : β → β) {c : Prop} [Decidable c] {a b a' b' : β}
+    (h1 : c → a = g a') (h2 : ¬ c → b = g b') : (if c then a else b) = g (if c then a' else b') := by
+  split <;> simp_all
+
+/-- two loops in lock step: the accumulators stay related by `g` as long as the invariant `P` of the
+    reference loop holds -/
+theorem foldl_sim {α β : Type} (P : β → Prop) (g : β → β) (step : β → α → β) (xs : List α) (b : β)
+    (h0 : P b) (hP : ∀ b x, P b → P (step b x)) (hstep : ∀ b x, P b → step (g b) x = g (step b x)) :
+    xs.foldl step (g b) = g (xs.foldl step b) := by
+  induction xs generalizing b with
+  | nil => rfl
+  | cons x xs ih =>
+    simp only [List.foldl_cons]
+    rw [hstep b x h0]
+    exact ih _ (hP _ _ h0)
 
 /-! ## leaves -/
 
@@ -255,6 +275,815 @@ theorem optUnwrapResultSilent_sim (c : Ctx) {item : ItemK} (hI : GoodI item) (s 
   intro hne
   simp only [silence, silenceErr_of_ne hne]
   rfl
+
+/-! ## predicates -/
+
+theorem predicateTail_sim (c : Ctx) (s : St) (cb : Item → Item → CbOut) (ls rs : List Item) :
+    predicateTail c (silenceSt s) cb ls rs = silenceP (predicateTail c s cb ls rs) := by
+  unfold predicateTail
+  generalize pairLoop (!c.lax) cb ls rs = acc
+  obtain ⟨hasErr, found, done⟩ := acc
+  cases done with
+  | some d => obtain ⟨p, e, pk⟩ := d; sim_triv
+  | none => cases found <;> cases hasErr <;> simp
+
+theorem executePredicate_sim (c : Ctx) {item : ItemK} (hI : GoodI item) (s : St) (left : Node)
+    (right : Option Node) (v : Item) (unwrapRight : Bool) (cb : Item → Item → CbOut) :
+    executePredicate c item (silenceSt s) left right v unwrapRight cb
+      = silenceP (executePredicate c item s left right v unwrapRight cb) := by
+  unfold executePredicate
+  have hl := optUnwrapResultSilent_sim c hI s left v true (some [])
+  have hlv := (optUnwrapResultSilent_good c hI s left v true (some [])).2
+  simp only [hl, silence_status, silence_st, silence_found, silence_err, silenceErr_of_ne hlv]
+  refine simP_ite (fun _ => by simp) (fun _ => ?_)
+  cases right with
+  | none => exact predicateTail_sim c _ cb _ _
+  | some rn =>
+    have hr := optUnwrapResultSilent_sim c hI (optUnwrapResultSilent c item s left v true (some [])).st rn v
+      unwrapRight (some [])
+    have hrv := (optUnwrapResultSilent_good c hI (optUnwrapResultSilent c item s left v true (some [])).st rn v
+      unwrapRight (some [])).2
+    simp only [hr, silence_status, silence_st, silence_found, silence_err, silenceErr_of_ne hrv]
+    exact simP_ite (fun _ => by simp) (fun _ => predicateTail_sim c _ cb _ _)
+
+theorem executeBinaryBoolItem_sim (c : Ctx) {item : ItemK} {bool : BoolK} (hI : GoodI item) (hB : GoodB bool)
+    (hSB : SimB bool) (s : St) (op : BinOp) (l r : Option Node) (v : Item) (hv : s.verbose = true) :
+    executeBinaryBoolItem c item bool (silenceSt s) op l r v
+      = silenceP (executeBinaryBoolItem c item bool s op l r v) := by
+  unfold executeBinaryBoolItem
+  cases l with
+  | none => sim_triv
+  | some l =>
+    simp only
+    split
+    · cases r with
+      | none => sim_triv
+      | some r =>
+        have ha := hSB s l v false hv
+        have hav : (bool s l v false).st.verbose = true := (hB s l v false).verbose.trans hv
+        have hb := hSB _ r v false hav
+        simp only [ha, silenceP_out, silenceP_err, silenceP_st, hb]
+        exact simP_ite (fun _ => rfl) (fun _ => simP_ite (fun _ => by simp) (fun _ => rfl))
+    · cases r with
+      | none => sim_triv
+      | some r =>
+        have ha := hSB s l v false hv
+        have hav : (bool s l v false).st.verbose = true := (hB s l v false).verbose.trans hv
+        have hb := hSB _ r v false hav
+        simp only [ha, silenceP_out, silenceP_err, silenceP_st, hb]
+        exact simP_ite (fun _ => rfl) (fun _ => simP_ite (fun _ => by simp) (fun _ => rfl))
+    · exact executePredicate_sim c hI _ _ _ _ _ _
+    · exact simP_ite (fun _ => executePredicate_sim c hI _ _ _ _ _ _) (fun _ => by simp)
+
+theorem executeUnaryBoolItem_sim (c : Ctx) {item : ItemK} {bool : BoolK} (hI : GoodI item)
+    (hSB : SimB bool) (s : St) (op : UnOp) (x : Option Node) (v : Item) (hv : s.verbose = true) :
+    executeUnaryBoolItem c item bool (silenceSt s) op x v
+      = silenceP (executeUnaryBoolItem c item bool s op x v) := by
+  unfold executeUnaryBoolItem
+  split
+  · -- not
+    rename_i xn
+    simp only [hSB s xn v false hv, silenceP_out, silenceP_st]
+    cases (bool s xn v false).out <;> simp
+  · -- is unknown
+    rename_i xn
+    simp only [hSB s xn v false hv, silenceP_out, silenceP_st, silenceP_err]
+    exact simP_ite (fun _ => by simp) (fun _ => by simp)
+  · -- exists
+    rename_i xn
+    refine simP_ite (fun _ => ?_) (fun _ => ?_)
+    · have hr := optUnwrapResultSilent_sim c hI s xn v false (some [])
+      have hrv := (optUnwrapResultSilent_good c hI s xn v false (some [])).2
+      simp only [hr, silence_status, silence_st, silence_found, silence_err, silenceErr_of_ne hrv]
+      exact simP_ite (fun _ => by simp) (fun _ => simP_ite (fun _ => by simp) (fun _ => by simp))
+    · have hr := optUnwrapResultSilent_sim c hI s xn v false none
+      have hrv := (optUnwrapResultSilent_good c hI s xn v false none).2
+      simp only [hr, silence_status, silence_st, silence_err, silenceErr_of_ne hrv]
+      exact simP_ite (fun _ => by simp) (fun _ => simP_ite (fun _ => by simp) (fun _ => by simp))
+  · sim_triv
+  · sim_triv
+  · sim_triv
+  · sim_triv
+
+theorem executeBoolItem_sim (c : Ctx) {item : ItemK} {bool : BoolK} (hI : GoodI item) (hB : GoodB bool)
+    (hSB : SimB bool) (s : St) (n : Node) (v : Item) (chn : Bool) (hv : s.verbose = true) :
+    executeBoolItem c item bool (silenceSt s) n v chn = silenceP (executeBoolItem c item bool s n v chn) := by
+  unfold executeBoolItem
+  refine simP_ite (fun _ => by simp) (fun _ => ?_)
+  split
+  · exact executeBinaryBoolItem_sim c hI hB hSB _ _ _ _ _ hv
+  · exact executeUnaryBoolItem_sim c hI hSB _ _ _ _ hv
+  · exact executePredicate_sim c hI _ _ _ _ _ _
+  · sim_triv
+
+theorem appendBoolResult_sim (c : Ctx) {item : ItemK} (hS : SimI item) (nx : Option Node) (f : Found)
+    (p : PRes) (hpv : p.st.verbose = true) (hne : p.err ≠ some .verbose) :
+    appendBoolResult c item nx f (silenceP p) = silence (appendBoolResult c item nx f p) := by
+  unfold appendBoolResult
+  simp only [silenceP_err, silenceP_st, silenceP_out]
+  cases h : p.err with
+  | some e =>
+    have : e ≠ .verbose := by intro he; subst he; exact hne h
+    simp [silenceErr_some_ne this]
+  | none =>
+    simp only
+    exact sim_ite (fun _ => by simp) (fun _ => executeNextItem_sim c hS _ _ _ _ hpv)
+
+theorem executeNestedBoolItem_sim {bool : BoolK} (hSB : SimB bool) (s : St) (n : Node) (v : Item)
+    (hv : s.verbose = true) :
+    executeNestedBoolItem bool (silenceSt s) n v = silenceP (executeNestedBoolItem bool s n v) := by
+  unfold executeNestedBoolItem
+  simp only [silenceSt_setCurrent, silenceSt_current]
+  rw [hSB { s with current := v } n v false hv]
+  rfl
+
+/-! ## arithmetic -/
+
+def silenceU (a : UAcc) : UAcc := { a with st := silenceSt a.st, ret := a.ret.map silence }
+
+theorem unaryStep_sim (c : Ctx) {item : ItemK} (hS : SimI item) (cb : Num.UCallback) (nx : Option Node)
+    (s : St) (f : Found) (a : UAcc) (v : Item) (h : UInv s f a) (hv : s.verbose = true) :
+    unaryStep c item cb nx (silenceU a) v = silenceU (unaryStep c item cb nx a v) := by
+  obtain ⟨st, found, res, ret⟩ := a
+  cases ret with
+  | some r => rfl
+  | none =>
+    have hst : st.verbose = true := ((h.2 rfl).1.verbose).trans hv
+    have go : ∀ val : Item,
+        (let r := executeNextItem c item (silenceSt st) nx val found
+         if r.status = .failed then ({ st := r.st, found := r.found, res := res, ret := some r } : UAcc)
+         else if r.status = .ok then
+           (if found.isNone then { st := r.st, found := r.found, res := res, ret := some ⟨r.st, r.found, .ok, none⟩ }
+            else { st := r.st, found := r.found, res := .ok, ret := none })
+         else { st := r.st, found := r.found, res := res, ret := none }) =
+        silenceU
+        (let r := executeNextItem c item st nx val found
+         if r.status = .failed then ({ st := r.st, found := r.found, res := res, ret := some r } : UAcc)
+         else if r.status = .ok then
+           (if found.isNone then { st := r.st, found := r.found, res := res, ret := some ⟨r.st, r.found, .ok, none⟩ }
+            else { st := r.st, found := r.found, res := .ok, ret := none })
+         else { st := r.st, found := r.found, res := res, ret := none }) := by
+      intro val
+      simp only [executeNextItem_sim c hS st nx val found hst, silence_status, silence_st, silence_found]
+      refine ite_sim silenceU (fun _ => rfl) (fun _ => ?_)
+      refine ite_sim silenceU (fun _ => ?_) (fun _ => rfl)
+      exact ite_sim silenceU (fun _ => rfl) (fun _ => rfl)
+    have bad : returnVerboseError (silenceSt st) found = silence (returnVerboseError st found) :=
+      returnVerboseError_sim st found hst
+    have badU : (UAcc.mk (silenceSt st) found res (some (returnVerboseError (silenceSt st) found)))
+        = silenceU { st := st, found := found, res := res, ret := some (returnVerboseError st found) } := by
+      rw [bad]; rfl
+    unfold unaryStep
+    cases v with
+    | int i => exact ite_sim silenceU (fun _ => rfl) (fun _ => go _)
+    | flt x => exact ite_sim silenceU (fun _ => rfl) (fun _ => go _)
+    | jnum t =>
+      refine ite_sim silenceU (fun _ => rfl) (fun _ => ?_)
+      cases hcast : Num.castJSONNumber t cb with
+      | some val => exact go val
+      | none => exact badU
+    | _ => exact ite_sim silenceU (fun _ => go _) (fun _ => badU)
+
+theorem execUnaryMathExpr_sim (c : Ctx) {item : ItemK} (hI : GoodI item) (hS : SimI item) (s : St)
+    (operand nx : Option Node) (v : Item) (cb : Num.UCallback) (f : Found) (hv : s.verbose = true) :
+    execUnaryMathExpr c item (silenceSt s) operand nx v cb f
+      = silence (execUnaryMathExpr c item s operand nx v cb f) := by
+  unfold execUnaryMathExpr
+  cases operand with
+  | none => rfl
+  | some x =>
+    have hr := optUnwrapResult_good c hI s x v true []
+    simp only [optUnwrapResult_sim c hS s x v true [] hv, silence_status, silence_st, silence_found, silence_err]
+    refine sim_ite (fun _ => by simp) (fun hnf => ?_)
+    have hm := Good.mid hr hnf
+    have hfold := foldl_sim (UInv s f) silenceU (unaryStep c item cb nx)
+      ((optUnwrapResult c item s x v true []).found.getD [])
+      ⟨(optUnwrapResult c item s x v true []).st, f, .notFound, none⟩
+      ⟨fun r hr => by simp at hr, fun _ => ⟨hm, Shape.refl f⟩⟩
+      (fun a v h => unaryStep_inv c hI cb nx s f a v h)
+      (fun a v h => unaryStep_sim c hS cb nx s f a v h hv)
+    have e0 : silenceU ⟨(optUnwrapResult c item s x v true []).st, f, .notFound, none⟩
+        = ⟨silenceSt (optUnwrapResult c item s x v true []).st, f, .notFound, none⟩ := rfl
+    rw [e0] at hfold
+    rw [hfold]
+    generalize List.foldl (unaryStep c item cb nx) _ _ = a
+    obtain ⟨st, found, res, ret⟩ := a
+    cases ret <;> rfl
+
+theorem execBinaryMathExpr_sim (c : Ctx) {item : ItemK} (hI : GoodI item) (hS : SimI item) (s : St)
+    (op : BinOp) (l r nx : Option Node) (v : Item) (f : Found) (hv : s.verbose = true) :
+    execBinaryMathExpr c item (silenceSt s) op l r nx v f
+      = silence (execBinaryMathExpr c item s op l r nx v f) := by
+  unfold execBinaryMathExpr
+  split
+  · rename_i ln rn
+    have hl := optUnwrapResult_good c hI s ln v true []
+    have hv1 : (optUnwrapResult c item s ln v true []).st.verbose = true := hl.verbose.trans hv
+    have hr := optUnwrapResult_good c hI (optUnwrapResult c item s ln v true []).st rn v true []
+    have hv2 := hr.verbose.trans hv1
+    simp only [optUnwrapResult_sim c hS s ln v true [] hv, silence_status, silence_st, silence_found, silence_err]
+    refine sim_ite (fun _ => by simp) (fun _ => ?_)
+    generalize (optUnwrapResult c item s ln v true []).found.getD [] = ls
+    split
+    · simp only [optUnwrapResult_sim c hS _ rn v true [] hv1, silence_status, silence_st, silence_found, silence_err]
+      refine sim_ite (fun _ => by simp) (fun _ => ?_)
+      generalize (optUnwrapResult c item (optUnwrapResult c item s ln v true []).st rn v true []).found.getD [] = rs
+      split
+      · generalize Num.mathOp _ _ op = m
+        split
+        · exact returnVerboseError_sim _ _ hv2
+        · refine sim_ite (fun _ => returnVerboseError_sim _ _ hv2) (fun _ => ?_)
+          exact sim_ite (fun _ => by simp) (fun _ => executeNextItem_sim c hS _ _ _ _ hv2)
+      · exact returnVerboseError_sim _ _ hv2
+    · exact returnVerboseError_sim _ _ hv1
+  · rfl
+
+/-! ## item methods -/
+
+theorem execMethodSize_sim (c : Ctx) {item : ItemK} (hS : SimI item) (s : St) (nx : Option Node)
+    (v : Item) (f : Found) (hv : s.verbose = true) :
+    execMethodSize c item (silenceSt s) nx v f = silence (execMethodSize c item s nx v f) := by
+  unfold execMethodSize
+  split
+  · exact executeNextItem_sim c hS _ _ _ _ hv
+  · simp only [silenceSt_ignoreSE]
+    exact sim_ite (fun _ => returnVerboseError_sim _ _ hv) (fun _ => executeNextItem_sim c hS _ _ _ _ hv)
+
+theorem execConvMethod_sim (c : Ctx) {item : ItemK} {any : AnyK} (hS : SimI item) (hSA : SimA any) (s : St)
+    (n : Node) (nx : Option Node) (v : Item) (f : Found) (unwrap : Bool) (conv : Item → Conv)
+    (hv : s.verbose = true) :
+    execConvMethod c item any (silenceSt s) n nx v f unwrap conv
+      = silence (execConvMethod c item any s n nx v f unwrap conv) := by
+  unfold execConvMethod
+  split
+  · exact sim_ite (fun _ => unwrapTargetArray_sim hSA _ _ _ _ hv) (fun _ => returnVerboseError_sim _ _ hv)
+  · generalize conv v = cv
+    split
+    · exact executeNextItem_sim c hS _ _ _ _ hv
+    · exact returnVerboseError_sim _ _ hv
+    · rfl
+    · exact returnError_sim _ _ _ hv
+
+theorem executeDateTimeMethod_sim (c : Ctx) {item : ItemK} (hS : SimI item) (s : St) (op : UnOp)
+    (arg nx : Option Node) (v : Item) (f : Found) (hv : s.verbose = true) :
+    executeDateTimeMethod c item (silenceSt s) op arg nx v f
+      = silence (executeDateTimeMethod c item s op arg nx v f) := by
+  unfold executeDateTimeMethod
+  split
+  · dsimp only
+    generalize (if (op = UnOp.datetime && arg.isSome) = true then _ else _ : Except Err DateTime) = parsed
+    cases parsed with
+    | error e => exact returnError_sim _ _ _ hv
+    | ok d =>
+      simp only
+      have fin : ∀ d' : DateTime,
+          (if (nx.isNone && f.isNone) = true then (⟨silenceSt s, f, .ok, none⟩ : Res)
+           else executeNextItem c item (silenceSt s) nx (.dt d') f)
+          = silence (if (nx.isNone && f.isNone) = true then (⟨s, f, .ok, none⟩ : Res)
+           else executeNextItem c item s nx (.dt d') f) :=
+        fun d' => sim_ite (fun _ => rfl) (fun _ => executeNextItem_sim c hS _ _ _ _ hv)
+      cases hk : kindOfOp op with
+      | none => exact fin d
+      | some k =>
+        simp only
+        cases hct : Time.castTo c.env c.useTZ k d with
+        | ok d' => exact fin d'
+        | error e =>
+          cases e
+          all_goals exact returnError_sim _ _ _ hv
+  · exact returnVerboseError_sim _ _ hv
+
+def silenceKV (a : KVAcc) : KVAcc := { a with st := silenceSt a.st, ret := a.ret.map silence }
+
+theorem kvStep_sim (c : Ctx) {item : ItemK} (hS : SimI item) (nx : Option Node) (id : Int)
+    (s : St) (f : Found) (a : KVAcc) (kv : List Char × Item) (h : KVInv s f a) (hv : s.verbose = true) :
+    kvStep c item nx id (silenceKV a) kv = silenceKV (kvStep c item nx id a kv) := by
+  obtain ⟨st, found, res, ret, stop⟩ := a
+  cases ret with
+  | some r => rfl
+  | none =>
+    cases stop with
+    | true => rfl
+    | false =>
+      have hst : st.verbose = true := (Mid.verbose (h.2 rfl).1).trans hv
+      have hst' : (kvEnter c st (kvObj id kv)).verbose = true := hst
+      have hr := executeNextItem_sim c hS (kvEnter c st (kvObj id kv)) nx (kvObj id kv) found hst'
+      have go :
+          (let r := executeNextItem c item (silenceSt (kvEnter c st (kvObj id kv))) nx (kvObj id kv) found
+           if r.status = .failed then KVAcc.mk r.st r.found r.status (some r) false
+           else if (r.status = .ok && found.isNone) = true then KVAcc.mk r.st r.found r.status none true
+           else KVAcc.mk r.st r.found r.status none false)
+          = silenceKV
+          (let r := executeNextItem c item (kvEnter c st (kvObj id kv)) nx (kvObj id kv) found
+           if r.status = .failed then KVAcc.mk r.st r.found r.status (some r) false
+           else if (r.status = .ok && found.isNone) = true then KVAcc.mk r.st r.found r.status none true
+           else KVAcc.mk r.st r.found r.status none false) := by
+        simp only [hr, silence_status, silence_st, silence_found]
+        exact ite_sim silenceKV (fun _ => rfl) (fun _ => ite_sim silenceKV (fun _ => rfl) (fun _ => rfl))
+      unfold kvStep
+      exact ite_sim silenceKV (fun _ => rfl) (fun _ => go)
+
+theorem executeKeyValueMethod_sim (c : Ctx) {item : ItemK} {any : AnyK} (hI : GoodI item) (hS : SimI item)
+    (hSA : SimA any) (s : St) (n : Node) (nx : Option Node) (v : Item) (f : Found) (unwrap : Bool)
+    (hv : s.verbose = true) :
+    executeKeyValueMethod c item any (silenceSt s) n nx v f unwrap
+      = silence (executeKeyValueMethod c item any s n nx v f unwrap) := by
+  unfold executeKeyValueMethod
+  split
+  · exact sim_ite (fun _ => unwrapTargetArray_sim hSA _ _ _ _ hv) (fun _ => returnVerboseError_sim _ _ hv)
+  · rename_i kvs
+    refine sim_ite (fun _ => rfl) (fun _ => ?_)
+    refine sim_ite (fun _ => rfl) (fun _ => ?_)
+    dsimp only
+    generalize hid : (_ : Int) + s.baseId * 10000000000 = id
+    generalize hid' : (_ : Int) + (silenceSt s).baseId * 10000000000 = id'
+    have hidEq : id = id' := hid.symm.trans hid'
+    subst hidEq
+    have hfold := foldl_sim (KVInv s f) silenceKV (kvStep c item nx id) kvs ⟨s, f, .ok, none, false⟩
+      (by
+        refine ⟨fun r hr => by simp at hr, fun _ => ⟨?_, Shape.refl f⟩⟩
+        refine ⟨?_, fun h => by simpa [restoreBase] using h⟩
+        simp [St.ctxEq, restoreBase])
+      (fun a kv h => kvStep_inv c hI nx id s f a kv h)
+      (fun a kv h => kvStep_sim c hS nx id s f a kv h hv)
+    have e0 : silenceKV ⟨s, f, .ok, none, false⟩ = ⟨silenceSt s, f, .ok, none, false⟩ := rfl
+    rw [e0] at hfold
+    rw [hfold]
+    generalize List.foldl (kvStep c item nx id) _ _ = a
+    obtain ⟨st, found, res, ret, stop⟩ := a
+    cases ret <;> rfl
+  · exact returnVerboseError_sim _ _ hv
+
+theorem execMethodNode_sim (c : Ctx) {item : ItemK} {any : AnyK} (hI : GoodI item) (hS : SimI item)
+    (hSA : SimA any) (s : St) (n : Node) (m : Method) (nx : Option Node) (v : Item) (f : Found)
+    (unwrap : Bool) (hv : s.verbose = true) :
+    execMethodNode c item any (silenceSt s) n m nx v f unwrap
+      = silence (execMethodNode c item any s n m nx v f unwrap) := by
+  unfold execMethodNode
+  cases m <;> simp only
+  all_goals first
+    | exact execConvMethod_sim c hS hSA _ _ _ _ _ _ _ hv
+    | exact executeNextItem_sim c hS _ _ _ _ hv
+    | exact execMethodSize_sim c hS _ _ _ _ hv
+    | exact executeKeyValueMethod_sim c hI hS hSA _ _ _ _ _ _ hv
+
+/-! ## `.**` and the generic element loop -/
+
+def silenceA (a : AAcc) : AAcc :=
+  { a with st := silenceSt a.st, err := silenceErr a.err, ret := a.ret.map silence }
+
+theorem AInv.verbose {s : St} {f : Found} {a : AAcc} (h : AInv s f a) (hnone : a.ret = none) :
+    a.st.verbose = s.verbose := by
+  have := Mid.verbose (h.2 hnone).1; simpa [restoreIgn] using this
+
+theorem anyVisit_sim {item : ItemK} (hS : SimI item) (node : Option Node) (level first last : Nat)
+    (ignore unwrapNext : Bool) (s : St) (f : Found) (a : AAcc) (v : Item) (h : AInv s f a)
+    (hnone : a.ret = none) (hv : s.verbose = true) :
+    anyVisit item node level first last ignore unwrapNext (silenceA a) v
+      = silenceA (anyVisit item node level first last ignore unwrapNext a v) := by
+  have hst : a.st.verbose = true := (h.verbose hnone).trans hv
+  obtain ⟨st, found, res, err, ret⟩ := a
+  simp only at hnone hst
+  subst hnone
+  unfold anyVisit
+  refine ite_sim silenceA (fun _ => ?_) (fun _ => rfl)
+  cases node with
+  | some n =>
+    have go : ∀ s1 : St, s1.verbose = true →
+        (let r := item (silenceSt s1) n v found unwrapNext
+         if r.status = .failed || (r.status = .ok && found.isNone) then
+           AAcc.mk r.st r.found r.status r.err (some r)
+         else AAcc.mk r.st r.found r.status r.err none)
+        = silenceA
+        (let r := item s1 n v found unwrapNext
+         if r.status = .failed || (r.status = .ok && found.isNone) then
+           AAcc.mk r.st r.found r.status r.err (some r)
+         else AAcc.mk r.st r.found r.status r.err none) := by
+      intro s1 hs1
+      simp only [hS s1 n v found unwrapNext hs1, silence_status, silence_st, silence_found, silence_err]
+      exact ite_sim silenceA (fun _ => rfl) (fun _ => rfl)
+    cases ignore with
+    | false => exact go st hst
+    | true => exact go { st with ignoreSE := true } hst
+  | none => cases found <;> rfl
+
+theorem anyDescend_sim {any : AnyK} (hSA : SimA any) (node : Option Node) (level first last : Nat)
+    (ignore unwrapNext : Bool) (s : St) (f : Found) (a : AAcc) (v : Item) (h : AInv s f a)
+    (hnone : a.ret = none) (hv : s.verbose = true) :
+    anyDescend any node level first last ignore unwrapNext (silenceA a) v
+      = silenceA (anyDescend any node level first last ignore unwrapNext a v) := by
+  have hst : a.st.verbose = true := (h.verbose hnone).trans hv
+  obtain ⟨st, found, res, err, ret⟩ := a
+  simp only at hnone hst
+  subst hnone
+  unfold anyDescend
+  refine ite_sim silenceA (fun _ => ?_) (fun _ => rfl)
+  have go :
+      (let r := any (silenceSt st) node ((collection v).getD []) found (level + 1) first last ignore unwrapNext
+       if r.status = .failed || (r.status = .ok && found.isNone) then
+         AAcc.mk r.st r.found r.status r.err (some r)
+       else AAcc.mk r.st r.found r.status r.err none)
+      = silenceA
+      (let r := any st node ((collection v).getD []) found (level + 1) first last ignore unwrapNext
+       if r.status = .failed || (r.status = .ok && found.isNone) then
+         AAcc.mk r.st r.found r.status r.err (some r)
+       else AAcc.mk r.st r.found r.status r.err none) := by
+    simp only [hSA st node _ found _ _ _ _ _ hst, silence_status, silence_st, silence_found, silence_err]
+    exact ite_sim silenceA (fun _ => rfl) (fun _ => rfl)
+  exact go
+
+theorem anyStep_sim {item : ItemK} {any : AnyK} (hI : GoodI item) (hS : SimI item) (hSA : SimA any)
+    (node : Option Node) (level first last : Nat) (ignore unwrapNext : Bool) (s : St) (f : Found)
+    (a : AAcc) (v : Item) (h : AInv s f a) (hv : s.verbose = true) :
+    anyStep item any node level first last ignore unwrapNext (silenceA a) v
+      = silenceA (anyStep item any node level first last ignore unwrapNext a v) := by
+  cases hret : a.ret with
+  | some r =>
+    obtain ⟨st, found, res, err, ret⟩ := a
+    simp only at hret
+    subst hret
+    rfl
+  | none =>
+    have h1 := anyVisit_sim hS node level first last ignore unwrapNext s f a v h hret hv
+    have hinv1 := anyVisit_inv hI node level first last ignore unwrapNext s f a v h hret
+    obtain ⟨st, found, res, err, ret⟩ := a
+    simp only at hret
+    subst hret
+    unfold anyStep
+    simp only [h1]
+    generalize anyVisit item node level first last ignore unwrapNext _ v = a1 at hinv1
+    cases hret1 : a1.ret with
+    | some r1 =>
+      obtain ⟨st1, found1, res1, err1, ret1⟩ := a1
+      simp only at hret1
+      subst hret1
+      rfl
+    | none =>
+      have h2 := anyDescend_sim hSA node level first last ignore unwrapNext s f a1 v hinv1 hret1 hv
+      obtain ⟨st1, found1, res1, err1, ret1⟩ := a1
+      simp only at hret1
+      subst hret1
+      exact h2
+
+theorem executeAnyItem_sim {item : ItemK} {any : AnyK} (hI : GoodI item) (hA : GoodA any) (hS : SimI item)
+    (hSA : SimA any) (s : St) (node : Option Node) (vs : List Item) (f : Found) (level first last : Nat)
+    (ignore unwrapNext : Bool) (hv : s.verbose = true) :
+    executeAnyItem item any (silenceSt s) node vs f level first last ignore unwrapNext
+      = silence (executeAnyItem item any s node vs f level first last ignore unwrapNext) := by
+  unfold executeAnyItem
+  refine sim_ite (fun _ => rfl) (fun _ => ?_)
+  have h0 : AInv s f ⟨s, f, .notFound, none, none⟩ := by
+    refine ⟨fun r hr => by simp at hr, fun _ => ⟨⟨?_, fun h => by simpa [restoreIgn] using h⟩, Shape.refl f, rfl⟩⟩
+    simp [St.ctxEq, restoreIgn]
+  have hstep : ∀ a v, AInv s f a → AInv s f (anyStep item any node level first last ignore unwrapNext a v) :=
+    fun a v h => anyStep_inv hI hA node level first last ignore unwrapNext s f a v h
+  have hinv : AInv s f (vs.foldl (anyStep item any node level first last ignore unwrapNext)
+      ⟨s, f, .notFound, none, none⟩) := foldl_inv (AInv s f) _ _ _ h0 hstep
+  have hfold := foldl_sim (AInv s f) silenceA (anyStep item any node level first last ignore unwrapNext) vs
+    ⟨s, f, .notFound, none, none⟩ h0 hstep
+    (fun a v h => anyStep_sim hI hS hSA node level first last ignore unwrapNext s f a v h hv)
+  have e0 : silenceA ⟨s, f, .notFound, none, none⟩ = ⟨silenceSt s, f, .notFound, none, none⟩ := rfl
+  rw [e0] at hfold
+  dsimp only
+  rw [hfold]
+  generalize List.foldl (anyStep item any node level first last ignore unwrapNext) _ _ = a at hinv
+  obtain ⟨st, found, res, err, ret⟩ := a
+  cases ret with
+  | some r => rfl
+  | none =>
+    have he : err = none := (hinv.2 rfl).2.2
+    subst he
+    rfl
+
+theorem anyInto_sim (c : Ctx) {any : AnyK} (hSA : SimA any) (s : St) (first last : Nat)
+    (nx : Option Node) (v : Item) (f : Found) (hv : s.verbose = true) :
+    anyInto c any (silenceSt s) first last nx v f = silence (anyInto c any s first last nx v f) := by
+  unfold anyInto
+  split
+  · exact hSA _ _ _ _ _ _ _ _ _ hv
+  · exact hSA _ _ _ _ _ _ _ _ _ hv
+  · rfl
+
+theorem execAnyNode_sim (c : Ctx) {item : ItemK} {any : AnyK} (hI : GoodI item) (hS : SimI item)
+    (hSA : SimA any) (s : St) (first last : Nat) (nx : Option Node) (v : Item) (f : Found)
+    (hv : s.verbose = true) :
+    execAnyNode c item any (silenceSt s) first last nx v f
+      = silence (execAnyNode c item any s first last nx v f) := by
+  unfold execAnyNode
+  refine sim_ite (fun _ => ?_) (fun _ => anyInto_sim c hSA _ _ _ _ _ _ hv)
+  have hv0 : ({ s with ignoreSE := true } : St).verbose = true := hv
+  have hr := executeNextItem_sim c hS { s with ignoreSE := true } nx v f hv0
+  have hv1 : (executeNextItem c item { s with ignoreSE := true } nx v f).st.verbose = true :=
+    (executeNextItem_good c hI { s with ignoreSE := true } nx v f).verbose.trans hv0
+  simp only [silenceSt_setIgn, hr, silence_status, silence_st, silence_found, silenceSt_ignoreSE]
+  refine sim_ite (fun _ => rfl) (fun _ => ?_)
+  rw [anyInto_sim c hSA _ first last nx v _ hv1]
+  rfl
+
+/-! ## subscripts -/
+
+def silenceIdx {α : Type} (p : St × Except Err α) : St × Except Err α := (silenceSt p.1, p.2)
+
+theorem silenceIdx_mk {α : Type} (s : St) (e : Except Err α) : silenceIdx (s, e) = (silenceSt s, e) := rfl
+
+theorem getArrayIndex_st (c : Ctx) (item : ItemK) (s : St) (n : Node) (v : Item) :
+    (getArrayIndex c item s n v).1 = (executeItem c item s n v (some [])).st := by
+  unfold getArrayIndex
+  dsimp only
+  repeat' split
+  all_goals rfl
+
+/-- a suppressed failure of the subscript expression is reported as the subscript error in the silent
+    run, exactly where the verbose run reports the suppressible error itself -/
+theorem getArrayIndex_sim (c : Ctx) {item : ItemK} (hS : SimI item) (s : St) (n : Node) (v : Item)
+    (hv : s.verbose = true) :
+    getArrayIndex c item (silenceSt s) n v = silenceIdx (getArrayIndex c item s n v) := by
+  unfold getArrayIndex
+  simp only [executeItem_sim c hS s n v (some []) hv, silence_status, silence_st, silence_found, silence_err]
+  refine ite_sim silenceIdx (fun _ => ?_) (fun _ => ?_)
+  · cases (executeItem c item s n v (some [])).err with
+    | none => rfl
+    | some e => cases e <;> rfl
+  · generalize (executeItem c item s n v (some [])).found.getD [] = l
+    cases l with
+    | nil => rfl
+    | cons x t =>
+      cases t with
+      | cons _ _ => rfl
+      | nil =>
+        simp only
+        generalize Num.getJSONInt32 x = g
+        cases g with
+        | ok i => rfl
+        | error e => cases e <;> rfl
+
+theorem getArrayIndex_verbose (c : Ctx) {item : ItemK} (hI : GoodI item) (s : St) (n : Node) (v : Item) :
+    (getArrayIndex c item s n v).1.verbose = s.verbose := by
+  rw [getArrayIndex_st]; exact (executeItem_good c hI s n v (some [])).verbose
+
+theorem execSubscript_sim (c : Ctx) {item : ItemK} (hI : GoodI item) (hS : SimI item) (s : St) (sub : Node)
+    (v : Item) (size : Int) (hv : s.verbose = true) :
+    execSubscript c item (silenceSt s) sub v size = silenceIdx (execSubscript c item s sub v size) := by
+  unfold execSubscript
+  split
+  · rename_i l r _
+    have hp1 : (getArrayIndex c item s l v).1.verbose = true := (getArrayIndex_verbose c hI s l v).trans hv
+    rw [getArrayIndex_sim c hS s l v hv]
+    generalize getArrayIndex c item s l v = p at hp1
+    obtain ⟨s1, e1⟩ := p
+    cases e1 with
+    | error e => rfl
+    | ok from_ =>
+      simp only at hp1
+      cases r with
+      | none => exact ite_sim silenceIdx (fun _ => rfl) (fun _ => rfl)
+      | some rn =>
+        simp only [silenceIdx_mk]
+        rw [getArrayIndex_sim c hS s1 rn v hp1]
+        generalize getArrayIndex c item s1 rn v = q
+        obtain ⟨s2, e2⟩ := q
+        cases e2 with
+        | error e => rfl
+        | ok to_ => exact ite_sim silenceIdx (fun _ => rfl) (fun _ => rfl)
+  · rfl
+  · rfl
+
+theorem execSubscript_verbose (c : Ctx) {item : ItemK} (hI : GoodI item) (s : St) (sub : Node)
+    (v : Item) (size : Int) : (execSubscript c item s sub v size).1.verbose = s.verbose := by
+  unfold execSubscript
+  split
+  · rename_i l r _
+    have hp1 := getArrayIndex_verbose c hI s l v
+    generalize getArrayIndex c item s l v = p at hp1
+    obtain ⟨s1, e1⟩ := p
+    cases e1 with
+    | error e => exact hp1
+    | ok from_ =>
+      simp only at hp1
+      cases r with
+      | none =>
+        simp only
+        split <;> exact hp1
+      | some rn =>
+        simp only
+        have hp2 := (getArrayIndex_verbose c hI s1 rn v).trans hp1
+        generalize getArrayIndex c item s1 rn v = q at hp2
+        obtain ⟨s2, e2⟩ := q
+        cases e2 with
+        | error e => exact hp2
+        | ok to_ =>
+          simp only
+          split <;> exact hp2
+  · rfl
+  · rfl
+
+def silenceIA (a : IAcc) : IAcc :=
+  { a with st := silenceSt a.st, err := silenceErr a.err, ret := a.ret.map silence }
+
+theorem indexElemStep_sim (c : Ctx) {item : ItemK} (hS : SimI item) (nx : Option Node) (s : St) (f : Found)
+    (a : IAcc) (v : Item) (h : IInv s f a) (hv : s.verbose = true) :
+    indexElemStep c item nx (silenceIA a) v = silenceIA (indexElemStep c item nx a v) := by
+  obtain ⟨st, found, res, err, ret⟩ := a
+  cases ret with
+  | some r => rfl
+  | none =>
+    have hst : st.verbose = true := ((h.2 rfl).1.verbose).trans hv
+    have go :
+        (let r := executeNextItem c item (silenceSt st) nx v found
+         if r.status = .failed || (r.status = .ok && found.isNone) then
+           IAcc.mk r.st r.found r.status r.err (some r)
+         else IAcc.mk r.st r.found r.status r.err none)
+        = silenceIA
+        (let r := executeNextItem c item st nx v found
+         if r.status = .failed || (r.status = .ok && found.isNone) then
+           IAcc.mk r.st r.found r.status r.err (some r)
+         else IAcc.mk r.st r.found r.status r.err none) := by
+      simp only [executeNextItem_sim c hS st nx v found hst, silence_status, silence_st, silence_found, silence_err]
+      exact ite_sim silenceIA (fun _ => rfl) (fun _ => rfl)
+    unfold indexElemStep
+    refine ite_sim silenceIA (fun _ => rfl) (fun _ => ?_)
+    split
+    · rfl
+    · exact ite_sim silenceIA (fun _ => rfl) (fun _ => go)
+
+theorem indexSubStep_sim (c : Ctx) {item : ItemK} (hI : GoodI item) (hS : SimI item) (nx : Option Node)
+    (xs : List Item) (v : Item) (s : St) (f : Found) (a : IAcc) (sub : Node) (h : IInv s f a)
+    (hv : s.verbose = true) :
+    indexSubStep c item nx xs v (silenceIA a) sub = silenceIA (indexSubStep c item nx xs v a sub) := by
+  obtain ⟨st, found, res, err, ret⟩ := a
+  cases ret with
+  | some r => rfl
+  | none =>
+    obtain ⟨hm, hs⟩ := h.2 rfl
+    have hst : st.verbose = true := (hm.verbose).trans hv
+    have hsub := execSubscript_good c hI s st hm sub v xs.length
+    have hsv : (execSubscript c item st sub v xs.length).1.verbose = true :=
+      (execSubscript_verbose c hI st sub v xs.length).trans hst
+    have hss := execSubscript_sim c hI hS st sub v xs.length hst
+    unfold indexSubStep
+    refine ite_sim silenceIA (fun _ => rfl) (fun _ => ?_)
+    rw [show execSubscript c item (silenceIA ⟨st, found, res, err, none⟩).st sub v xs.length
+          = silenceIdx (execSubscript c item st sub v xs.length) from hss,
+        show execSubscript c item (IAcc.mk st found res err none).st sub v xs.length
+          = execSubscript c item st sub v xs.length from rfl]
+    generalize execSubscript c item st sub v xs.length = p at hsub hsv
+    obtain ⟨s1, e1⟩ := p
+    cases e1 with
+    | error e =>
+      show IAcc.mk (silenceSt s1) found res (silenceErr err) (some (returnError (silenceSt s1) found e))
+        = silenceIA (IAcc.mk s1 found res err (some (returnError s1 found e)))
+      rw [returnError_sim s1 found e hsv]
+      rfl
+    | ok ft =>
+      obtain ⟨from_, to_⟩ := ft
+      have hsub' : IMid s s1 := hsub
+      exact foldl_sim (IInv s f) silenceIA (indexElemStep c item nx) (sliceRange xs from_ to_)
+        ⟨s1, found, res, err, none⟩ ⟨fun r hr => by simp at hr, fun _ => ⟨hsub', hs⟩⟩
+        (fun a' v' h' => indexElemStep_inv c hI nx s f a' v' h')
+        (fun a' v' h' => indexElemStep_sim c hS nx s f a' v' h' hv)
+
+theorem execArrayIndex_sim (c : Ctx) {item : ItemK} (hI : GoodI item) (hS : SimI item) (s : St)
+    (subs : List Node) (nx : Option Node) (v : Item) (f : Found) (hv : s.verbose = true) :
+    execArrayIndex c item (silenceSt s) subs nx v f = silence (execArrayIndex c item s subs nx v f) := by
+  unfold execArrayIndex
+  generalize arrayOf c v = o
+  cases o with
+  | none => exact returnVerboseError_sim _ _ hv
+  | some xs =>
+    have h0 : IInv s f ⟨{ s with innermost := xs.length }, f, .notFound, none, none⟩ := by
+      refine ⟨fun r hr => by simp at hr, fun _ => ⟨⟨?_, fun h => by simpa [restoreInn] using h⟩, Shape.refl f⟩⟩
+      simp [St.ctxEq, restoreInn]
+    have hfold := foldl_sim (IInv s f) silenceIA (indexSubStep c item nx xs v) subs
+      ⟨{ s with innermost := xs.length }, f, .notFound, none, none⟩ h0
+      (fun a sub h => indexSubStep_inv c hI nx xs v s f a sub h)
+      (fun a sub h => indexSubStep_sim c hI hS nx xs v s f a sub h hv)
+    have e0 : silenceIA ⟨{ s with innermost := xs.length }, f, .notFound, none, none⟩
+        = ⟨{ silenceSt s with innermost := xs.length }, f, .notFound, none, none⟩ := rfl
+    rw [e0] at hfold
+    dsimp only
+    rw [hfold]
+    generalize List.foldl (indexSubStep c item nx xs v) _ _ = a
+    obtain ⟨st, found, res, err, ret⟩ := a
+    cases ret <;> rfl
+
+/-! ## dispatch and the induction over fuel -/
+
+theorem boolResult_sim (c : Ctx) {item : ItemK} {bool : BoolK} (hS : SimI item) (hB : GoodB bool)
+    (hSB : SimB bool) (s : St) (n : Node) (nx : Option Node) (v : Item) (f : Found) (hv : s.verbose = true) :
+    appendBoolResult c item nx f (bool (silenceSt s) n v true)
+      = silence (appendBoolResult c item nx f (bool s n v true)) := by
+  rw [hSB s n v true hv]
+  exact appendBoolResult_sim c hS nx f _ ((hB s n v true).verbose.trans hv) (hB s n v true).noVerbose
+
+theorem execBinaryNode_sim (c : Ctx) {item : ItemK} {bool : BoolK} {any : AnyK} (hI : GoodI item)
+    (hB : GoodB bool) (hS : SimI item) (hSB : SimB bool) (hSA : SimA any) (s : St) (n : Node) (op : BinOp)
+    (l r nx : Option Node) (v : Item) (f : Found) (unwrap : Bool) (hv : s.verbose = true) :
+    execBinaryNode c item bool any (silenceSt s) n op l r nx v f unwrap
+      = silence (execBinaryNode c item bool any s n op l r nx v f unwrap) := by
+  unfold execBinaryNode
+  refine sim_ite (fun _ => boolResult_sim c hS hB hSB _ _ _ _ _ hv) (fun _ => ?_)
+  refine sim_ite (fun _ => execBinaryMathExpr_sim c hI hS _ _ _ _ _ _ _ hv) (fun _ => ?_)
+  split
+  · exact execConvMethod_sim c hS hSA _ _ _ _ _ _ _ hv
+  · rfl
+
+theorem execUnaryNode_sim (c : Ctx) {item : ItemK} {bool : BoolK} {any : AnyK} (hI : GoodI item)
+    (hB : GoodB bool) (hS : SimI item) (hSB : SimB bool) (hSA : SimA any) (s : St) (n : Node) (op : UnOp)
+    (x nx : Option Node) (v : Item) (f : Found) (unwrap : Bool) (hv : s.verbose = true) :
+    execUnaryNode c item bool any (silenceSt s) n op x nx v f unwrap
+      = silence (execUnaryNode c item bool any s n op x nx v f unwrap) := by
+  unfold execUnaryNode
+  split
+  · exact boolResult_sim c hS hB hSB _ _ _ _ _ hv
+  · exact boolResult_sim c hS hB hSB _ _ _ _ _ hv
+  · exact boolResult_sim c hS hB hSB _ _ _ _ _ hv
+  · split
+    · exact unwrapTargetArray_sim hSA _ _ _ _ hv
+    · cases x with
+      | none => rfl
+      | some cond =>
+        have hp := executeNestedBoolItem_good hB s cond v
+        have hpv : (executeNestedBoolItem bool s cond v).st.verbose = true := hp.verbose.trans hv
+        simp only [executeNestedBoolItem_sim hSB s cond v hv, silenceP_err, silenceP_st, silenceP_out]
+        refine sim_ite (fun _ => ?_) (fun _ => ?_)
+        · simp [silenceErr_of_ne hp.noVerbose]
+        · exact sim_ite (fun _ => rfl) (fun _ => executeNextItem_sim c hS _ _ _ _ hpv)
+  · exact execUnaryMathExpr_sim c hI hS _ _ _ _ _ _ hv
+  · exact execUnaryMathExpr_sim c hI hS _ _ _ _ _ _ hv
+  · split
+    · exact hSA _ _ _ _ _ _ _ _ _ hv
+    · exact executeDateTimeMethod_sim c hS _ _ _ _ _ _ hv
+
+theorem dispatch_sim (c : Ctx) {item : ItemK} {bool : BoolK} {any : AnyK} (hI : GoodI item)
+    (hB : GoodB bool) (hS : SimI item) (hSB : SimB bool) (hSA : SimA any) (s : St) (n : Node) (v : Item)
+    (f : Found) (unwrap : Bool) (hv : s.verbose = true) :
+    dispatch c item bool any (silenceSt s) n v f unwrap = silence (dispatch c item bool any s n v f unwrap) := by
+  unfold dispatch
+  split
+  · exact execConstNode_sim c hS hSA _ _ _ _ _ _ _ hv
+  · exact execLiteral_sim c hS _ _ _ _ hv
+  · exact execLiteral_sim c hS _ _ _ _ hv
+  · exact execLiteral_sim c hS _ _ _ _ hv
+  · exact execVariable_sim c hS _ _ _ _ hv
+  · exact execKeyNode_sim c hS hSA _ _ _ _ _ _ _ hv
+  · exact execBinaryNode_sim c hI hB hS hSB hSA _ _ _ _ _ _ _ _ _ hv
+  · exact execUnaryNode_sim c hI hB hS hSB hSA _ _ _ _ _ _ _ _ hv
+  · exact boolResult_sim c hS hB hSB _ _ _ _ _ hv
+  · exact execMethodNode_sim c hI hS hSA _ _ _ _ _ _ _ hv
+  · exact execAnyNode_sim c hI hS hSA _ _ _ _ _ _ hv
+  · exact execArrayIndex_sim c hI hS _ _ _ _ _ hv
+
+theorem poll_sim (s : St) : poll (silenceSt s) = (poll s).map silenceSt := by
+  unfold poll
+  simp only [silenceSt_budget]
+  split <;> rfl
+
+theorem poll_verbose {s s' : St} (h : poll s = some s') : s'.verbose = s.verbose := by
+  unfold poll at h
+  split at h
+  · simp at h; subst h; rfl
+  · simp at h
+  · simp at h; subst h; rfl
+
+/-- **the silent run simulates the verbose run, for the three dispatchers and every fuel** -/
+theorem sim_all (c : Ctx) : ∀ fuel : Nat,
+    SimI (xItem c fuel) ∧ SimB (xBool c fuel) ∧ SimA (xAny c fuel) := by
+  intro fuel
+  induction fuel with
+  | zero =>
+    refine ⟨fun s n v f u _ => ?_, fun s n v b _ => ?_, fun s n vs f l a b i u _ => ?_⟩
+    · simp only [xItem]; rfl
+    · simp only [xBool]; rfl
+    · simp only [xAny]; rfl
+  | succ fuel ih =>
+    obtain ⟨hS, hSB, hSA⟩ := ih
+    obtain ⟨hI, hB, hA⟩ := good_all c fuel
+    refine ⟨fun s n v f u hv => ?_, fun s n v b hv => ?_, fun s n vs f l a b i u hv => ?_⟩
+    · simp only [xItem]
+      rw [poll_sim]
+      cases hp : poll s with
+      | none => rfl
+      | some s' =>
+        exact dispatch_sim c hI hB hS hSB hSA s' n v f u ((poll_verbose hp).trans hv)
+    · simp only [xBool]; exact executeBoolItem_sim c hI hB hSB _ _ _ _ hv
+    · simp only [xAny]; exact executeAnyItem_sim hI hA hS hSA _ _ _ _ _ _ _ _ _ hv
+
+/-- `executeItemOptUnwrapTarget` under `WithSilent` -/
+theorem xItem_sim (c : Ctx) (fuel : Nat) (s : St) (n : Node) (v : Item) (f : Found) (u : Bool)
+    (hv : s.verbose = true) : xItem c fuel (silenceSt s) n v f u = silence (xItem c fuel s n v f u) :=
+  (sim_all c fuel).1 s n v f u hv
+
+/-- `executeBoolItem` under `WithSilent`: same outcome, same error -/
+theorem xBool_sim (c : Ctx) (fuel : Nat) (s : St) (n : Node) (v : Item) (b : Bool)
+    (hv : s.verbose = true) : xBool c fuel (silenceSt s) n v b = silenceP (xBool c fuel s n v b) :=
+  (sim_all c fuel).2.1 s n v b hv
+
+/-- `executeAnyItem` under `WithSilent` -/
+theorem xAny_sim (c : Ctx) (fuel : Nat) (s : St) (node : Option Node) (vs : List Item) (f : Found)
+    (level first last : Nat) (ign un : Bool) (hv : s.verbose = true) :
+    xAny c fuel (silenceSt s) node vs f level first last ign un
+      = silence (xAny c fuel s node vs f level first last ign un) :=
+  (sim_all c fuel).2.2 s node vs f level first last ign un hv
 
 end Exec
 end Sqljson
